@@ -13,6 +13,7 @@ Root variants are judged by substituting the returned mass into the cosh / sinh 
 For T = 4..8 every set of undefined timeslices is enumerated (both data kinds); larger T are sampled.
 A mutation monitor (the one of C14) is tapped on deriv, second_deriv, m_eff, plateau and fit.
 """
+import copy
 import inspect
 import math
 
@@ -27,13 +28,17 @@ from .C14 import same_scalar, judge_corr, to_model, Layout, hint_global, magnitu
 
 ID = 'C15'
 LEVEL = 'exploration'
-DECIDING = ['variant_calls', 'timeslices_judged', 'entries_compared', 'root_substitutions', 'plateau_fits', 'plateau_averages',
+DECIDING = ['held_results_checked', 'scale_invariance_pairs', 'variant_calls', 'timeslices_judged', 'entries_compared', 'root_substitutions', 'plateau_fits', 'plateau_averages',
             'patterns_enumerated', 'tap:Corr.deriv', 'tap:Corr.second_deriv', 'tap:Corr.m_eff', 'tap:Corr.plateau']
 RULE = ('cases: single-valued real correlators, Obs on 1-2 replicas (contiguous / strided / gapped lists); (enum) T=4..8 with EVERY set of '
         'undefined timeslices that leaves at least one timeslice defined (2^T - 1 masks per T, 491 in all; exhaustive for this sub-space), '
         'once with positive data (cosh / exponential / noisy positive) and once with sign-changing data (sinh / oscillating / random signs); '
         '(sample) T=9..24 with undefined sets of class none / boundary / one interior / several; (roots) clean cosh / sinh data, even and odd T, '
-        'for the substitution test; (plateau) random inclusive ranges, both methods, explicit range / prange, auto_gamma on / off. In every case '
+        'for the substitution test, default and other guesses; (plateau) random inclusive ranges incl. first == last and the full extent, numpy '
+        'integers in the range, both methods, Corr.fit with a constant called directly, explicit range / prange / another stored prange, auto_gamma '
+        'on / off with another stored analysis; (onebyone) timeslices written as 1x1 matrices. Generated correlators carry at random an overall factor '
+        '1e-8 ... 1e8, a tag, a stored prange, the reweighted flag, the same Obs object on neighbouring timeslices, bare chain names; m_eff of s * C is '
+        'compared with m_eff of C (same undefined timeslices, same masses); results are held and re-checked after all later calls of the case. In every case '
         'all 5 deriv, 4 second_deriv and 6 m_eff variants are called and each output timeslice is compared. Non-trivial: at least one defined '
         'output timeslice was compared in value and fluctuations (every formula references >= 2 input timeslices); distinct = digest of '
         '(T, undefined set, data).')
@@ -47,6 +52,8 @@ ASSUMPTIONS = ['scalar overloads of Obs (+ - * / ** log arccosh cosh sinh) used 
                'a ratio within 1e-7 of the boundary of the solvable interval of the cosh / sinh equation is borderline: counted, not judged',
                'sinh variant: the two mid-lattice timeslices (even T) repeat their predecessor, as documented in the code comment',
                'central values are never exactly 0 (log of a zero ratio is not exercised)',
+               'weights of the constant fit are the errors in force at call time: the stored analysis (auto_gamma off) or a default analysis of '
+               'independent copies (auto_gamma on)',
                'when every output timeslice is expected to be undefined the call may raise (a completely undefined correlator cannot be constructed)']
 BUDGET = {'quick': 45, 'thorough': 540}
 
@@ -94,6 +101,7 @@ def plan(tier):
                 p.append(('%s:%s:%d' % (tag, sign, k), len(ENUM[k::ENUM_SPLIT])))
     for k in range(2):
         p += [('sample:%d' % k, 130 * m), ('roots:%d' % k, 80 * m), ('plateau:%d' % k, 100 * m)]
+    p.append(('onebyone', 12 * m))
     return p
 
 
@@ -120,19 +128,49 @@ def data_profile(rng, T, sign, kind=None):
     return [float(x) for x in v], kind
 
 
-def build(rng, T, mask, sign, kind=None, rel=0.02, prange=None, padding_ok=True):
+SCALES = [1e-8, 1e-4, 1e4, 1e8]
+
+
+def build(rng, T, mask, sign, kind=None, rel=0.02, prange=None, padding_ok=True, ctx=None, decorate=True, one_by_one=False):
+    """decorate (hardening): the whole correlator scaled by 1e-8 ... 1e8, a tag, a stored plateau range, the reweighted flag, the same Obs
+    object on neighbouring timeslices, content handed over as ndarray; none of these may influence a formula or the definedness"""
     lay = Layout(rng, nmin=10, nmax=14)
     vals, kind = data_profile(rng, T, sign, kind)
+    if decorate and rng.random() < 0.3:
+        sc = float(rng.choice(SCALES))
+        vals = [v * sc for v in vals]
+        kind += ' x %g' % sc
+        if ctx is not None:
+            ctx.count('scaled_correlators')
     entries = [lay.obs(rng, vals[t], rel) if mask[t] else None for t in range(T)]
+    if decorate and rng.random() < 0.08:
+        # blocks of two timeslices holding the same object
+        for t in range(1, T, 2):
+            if entries[t] is not None and entries[t - 1] is not None:
+                entries[t] = entries[t - 1]
+        kind += ' repeated objects'
+    if decorate and rng.random() < 0.1:
+        for e in entries:
+            if e is not None:
+                e.reweighted = True
     first = next(t for t in range(T) if mask[t])
     last = max(t for t in range(T) if mask[t])
     kw = {}
     if prange is not None:
         kw['prange'] = prange
-    if padding_ok and (first > 0 or last < T - 1) and rng.random() < 0.5:
+    if one_by_one:
+        A = PE.Corr([None if e is None else np.array([[e]], dtype=object) for e in entries], **kw)
+    elif padding_ok and (first > 0 or last < T - 1) and rng.random() < 0.5:
         A = PE.Corr(entries[first:last + 1], padding=[first, T - 1 - last], **kw)
+    elif all(mask) and rng.random() < 0.4:
+        A = PE.Corr(np.array(entries, dtype=object), **kw)
     else:
         A = PE.Corr(list(entries), **kw)
+    if decorate and rng.random() < 0.25:
+        A.tag = 'correlator %d' % int(rng.integers(0, 100))
+    if decorate and prange is None and rng.random() < 0.2:
+        a = int(rng.integers(0, T))
+        A.set_prange([a, int(rng.integers(a, T))])
     return A, entries, kind
 
 
@@ -151,6 +189,9 @@ def neighbourhood_hints(c, width=2):
     return out
 
 
+ONE_BY_ONE = [False]      # set while a correlator with 1x1-matrix timeslices is judged (tags name the method, not the variant)
+
+
 def attempt(fn):
     try:
         return fn(), None
@@ -165,6 +206,9 @@ def report_raise(ctx, exc, label, exp_any_defined, mask, c=None):
     import traceback
     ctx.ev()
     context = context_of(mask)
+    if ONE_BY_ONE[0]:
+        context = 'one-by-one-matrix-content'
+        label = label.split('.')[0]
     if c is not None and label.endswith('.log') and context != 'undefined-interior-slice':
         # the logarithm is undefined on non-positive timeslices: they act like undefined ones
         if context_of([m and c[t].value > 0 for t, m in enumerate(mask)]) == 'undefined-interior-slice':
@@ -175,10 +219,15 @@ def report_raise(ctx, exc, label, exp_any_defined, mask, c=None):
 
 
 # ------------------------------------------------------------------------------------------
+HELD = []      # (label, result, digest at the time it was returned): re-checked after all later calls of the case (results must not change)
+
+
 def judge_formula(ctx, A, c, mask, label, call, exp_flat, hints):
     ctx.count('variant_calls')
     d0 = any_digest(A)
     res, exc = attempt(call)
+    if exc is None and is_corr(res):
+        HELD.append((label, res, any_digest(res)))
     ctx.ev()
     if any_digest(A) != d0:
         ctx.violation('mutation:%s:self' % label.split('.')[0], {'call': label})
@@ -201,13 +250,15 @@ def own_fsolve_converges(kind, a, b, r, guess=1.0):
     return out[2] == 1
 
 
-def judge_roots(ctx, A, c, mask, variant):
+def judge_roots(ctx, A, c, mask, variant, guess=None):
     label = 'm_eff.' + variant
     family = 'sinh' if variant == 'sinh' else 'cosh'
     T = len(c)
     plan = refc.m_eff_root_plan(c, variant, FN)
     ctx.count('variant_calls')
-    res, exc = attempt(lambda: A.m_eff(variant))
+    res, exc = attempt((lambda: A.m_eff(variant)) if guess is None else (lambda: A.m_eff(variant, guess=guess)))
+    if exc is None and is_corr(res):
+        HELD.append((label, res, any_digest(res)))
     any_def = any(p[0] == 'root' for p in plan)
     if exc is not None:
         report_raise(ctx, exc, label, any_def, mask)
@@ -252,7 +303,7 @@ def judge_roots(ctx, A, c, mask, variant):
             ctx.count('root_beyond_solver_regime_not_judged')
             continue
         if g is None:
-            if own_fsolve_converges(kind, a, b, ratio.value):
+            if own_fsolve_converges(kind, a, b, ratio.value, 1.0 if guess is None else guess):
                 ctx.violation('pattern:%s:undefined-where-expected-defined' % label, dict(pat, t=t, ratio=ratio.value, a=a, b=b, reference_root=mstar))
             else:
                 ctx.count('solver_not_converged_slice_undefined')
@@ -266,7 +317,7 @@ def judge_roots(ctx, A, c, mask, variant):
         back = refc.ratio_at(F, g, a, b)
         ctx.count('root_substitutions')
         rv, rd = magnitude(ratio)
-        if abs(back.value - ratio.value) > 1e-6 * abs(ratio.value) and not own_fsolve_converges(kind, a, b, ratio.value):
+        if abs(back.value - ratio.value) > 1e-6 * abs(ratio.value) and not own_fsolve_converges(kind, a, b, ratio.value, 1.0 if guess is None else guess):
             ctx.violation('m_eff:%s:unconverged-root-returned' % family,
                           dict(pat, variant=variant, t=t, ratio=ratio.value, a=a, b=b, returned=g.value, reference_root=mstar))
             continue
@@ -311,26 +362,80 @@ def all_variants(ctx, rng, A, entries, mask, sign, roots=True):
         for v in MEFF_ROOT:
             ctx.cell('m_eff.' + v, cls, sign)
             n += judge_roots(ctx, A, c, mask, v)
+    check_held(ctx)
     return n
 
 
+def check_held(ctx):
+    for label, res, d in HELD:
+        ctx.ev()
+        if any_digest(res) != d:
+            ctx.violation('aliasing:%s:result-changed-by-later-calls' % label, {})
+    ctx.count('held_results_checked', len(HELD))
+    del HELD[:]
+
+
+def scale_invariance(ctx, rng, A, mask):
+    """m_eff does not depend on the normalisation of the correlator: the effective masses of s * C (s = 1e-8 ... 1e8) have the same
+    undefined timeslices as those of C and, for the closed formulas, the same values and fluctuations (relative 1e-9)"""
+    sc = float(rng.choice(SCALES))
+    B = A * sc
+    for v in MEFF_DIRECT + ['cosh', 'sinh']:
+        ra, ea = attempt(lambda: A.m_eff(v))
+        rb, eb = attempt(lambda: B.m_eff(v))
+        ctx.ev()
+        ctx.count('scale_invariance_pairs')
+        if (ea is None) != (eb is None):
+            ctx.violation('scale:m_eff.%s:raises-at-one-scale-only' % v, {'scale': sc, 'pattern': ''.join('x' if m else '.' for m in mask),
+                                                                          'exception': repr(ea or eb)[:200]})
+            continue
+        if ea is not None:
+            continue
+        pa, pb = refc.pattern(to_model(ra)), refc.pattern(to_model(rb))
+        if pa != pb:
+            ctx.violation('scale:m_eff.%s:undefined-timeslices-depend-on-scale' % v, {'scale': sc, 'unscaled': pa, 'scaled': pb})
+            continue
+        if v in MEFF_DIRECT:
+            for t, (x, y) in enumerate(zip(refc.flat(to_model(ra)), refc.flat(to_model(rb)))):
+                if x is not None:
+                    same_scalar(ctx, y, x, 'scale:m_eff.%s' % v, 't=%d scale %g' % (t, sc), 1.0, 1e-2, rtol=1e-9)   # masses are O(1), their fluctuations O(relative noise)
+
+
 # ------------------------------------------------------------------------------------------
-def judge_plateau(ctx, A, c, mask, first, last, method, how, auto_gamma):
+def judge_plateau(ctx, A, c, mask, first, last, method, how, auto_gamma, np_range=False, direct_fit=False):
     """how: 'range' (explicit list) | 'prange' (taken from the correlator)"""
-    label = 'plateau.' + ('fit' if method == 'fit' else 'avg')
-    rng_list = [first, last]
+    label = ('fit.const' if direct_fit else 'plateau.fit') if method == 'fit' else 'plateau.avg'
+    rng_list = [first, last] if not np_range else [np.int64(first), np.int32(last)]
     kw = {}
     if method != 'fit' or how == 'kw':
         kw['method'] = method
     if auto_gamma:
         kw['auto_gamma'] = True
-    if how == 'prange':
+    if direct_fit:
+        def const(a, t):
+            return a[0]
+        call = (lambda: A.fit(const, rng_list, silent=True)[0]) if how != 'kw' else (lambda: A.fit(const, fitrange=rng_list, silent=True)[0])
+    elif how == 'prange':
         call = lambda: A.plateau(**kw)
     else:
         call = lambda: A.plateau(rng_list, **kw)
+    # weights of the constant fit: the errors in force at call time - the stored analysis (auto_gamma off), or a fresh default
+    # analysis made by the call itself (auto_gamma on; computed here on independent copies, whatever was stored before)
+    w = None
+    if method == 'fit':
+        w = []
+        for o in c:
+            if o is None:
+                w.append(None)
+            elif auto_gamma:
+                tw = copy.deepcopy(o)
+                tw.gamma_method()
+                w.append(1.0 / tw.dvalue ** 2)
+            else:
+                w.append(1.0 / o.dvalue ** 2)
     res, exc = attempt(call)
     ctx.ev()
-    if rng_list != [first, last]:
+    if [int(x) for x in rng_list] != [first, last]:
         ctx.violation('mutation:plateau:arg0', {'after': rng_list, 'before': [first, last]})
     ts = [t for t in range(first, last + 1) if c[t] is not None]
     if not ts:
@@ -351,12 +456,19 @@ def judge_plateau(ctx, A, c, mask, first, last, method, how, auto_gamma):
     what = 'range [%d,%d] pattern %s' % (first, last, ''.join('x' if m else '.' for m in mask))
     if method == 'fit':
         ctx.count('plateau_fits')
-        errs = [c[t].dvalue for t in range(len(c)) if c[t] is not None]
-        w = [None if c[t] is None else 1.0 / c[t].dvalue ** 2 for t in range(len(c))]
+        errs = [None if x is None else x ** -0.5 for x in w]
         exp = refc.plateau_constant_fit(c, w, first, last)
         # Levenberg-Marquardt stops when chi^2 changes by less than ftol = 1e-8 relative: (a - a*)^2 sum(w) <~ 1e-8 chi^2_min
         chi2 = sum(w[t] * (c[t].value - exp.value) ** 2 for t in ts)
         tol = math.sqrt(1e-7 * chi2 / sum(w[t] for t in ts)) + 1e-9 * abs(exp.value)
+        if abs(exp.value) > 100 and abs(res.value) < 1e-3 * abs(exp.value) and min(e for e in errs if e is not None) > 1e3:
+            # the minimiser stays orders of magnitude closer to its start value 0.1 than to the minimum: with errors that are large in
+            # absolute terms the finite-difference Jacobian of the residuals (step ~1e-9 at the start value) is lost in rounding.
+            # One tag for plateau(method='fit') and Corr.fit.
+            ctx.ev()
+            ctx.violation('fit:minimiser-stays-near-initial-guess', {'call': label, 'what': what, 'returned': res.value, 'closed_form': exp.value,
+                                                                    'errors': errs, 'chi2_at_closed_form': chi2})
+            return 0
         ctx.close(res.value, exp.value, 'value:%s:value' % label, what, rtol=0.0, atol=tol, detail={'errors': errs, 'chi2_min': chi2})
         sg, se = base.snap(res), base.snap(exp)
         if sorted(sg['chains']) != sorted(se['chains']):
@@ -376,7 +488,9 @@ def judge_plateau(ctx, A, c, mask, first, last, method, how, auto_gamma):
 def plateaus(ctx, rng, A, entries, mask, nfit=2, navg=6):
     c = list(entries)
     T = len(c)
-    A.gamma_method()
+    for e in entries:
+        if e is not None:
+            e.gamma_method()
     n = 0
     for k in range(navg):
         a = int(rng.integers(0, T))
@@ -396,7 +510,7 @@ def run_case(ctx, kind, idx, rng):
         _, sign, k = kind.split(':')
         T, mask = ENUM[int(k)::ENUM_SPLIT][idx]
         ctx.count('patterns_enumerated')
-        A, entries, dk = build(rng, T, mask, sign)
+        A, entries, dk = build(rng, T, mask, sign, ctx=ctx)
         n = all_variants(ctx, rng, A, entries, mask, sign)
         n += plateaus(ctx, rng, A, entries, mask, nfit=1, navg=3)
     elif kind.startswith('sample'):
@@ -418,8 +532,25 @@ def run_case(ctx, kind, idx, rng):
             mask = [bool(rng.random() > rng.choice([0.15, 0.4])) for _ in range(T)]
             if not any(mask):
                 mask[int(rng.integers(0, T))] = True
-        A, entries, dk = build(rng, T, mask, sign)
+        A, entries, dk = build(rng, T, mask, sign, ctx=ctx)
         n = all_variants(ctx, rng, A, entries, mask, sign)
+        if idx % 3 == 0:
+            scale_invariance(ctx, rng, A, mask)
+    elif kind.startswith('onebyone'):
+        # single-valued correlator whose timeslices are written as 1x1 matrices (what Hankel(1) returns)
+        T = int(rng.integers(4, 13))
+        sign = ['positive', 'changing'][idx % 2]
+        mask = [True] * T
+        if idx % 2:
+            mask[int(rng.integers(1, T - 1))] = False
+        A, entries, dk = build(rng, T, mask, sign, ctx=ctx, one_by_one=True)
+        dk += ' (1x1 matrices)'
+        ONE_BY_ONE[0] = True
+        try:
+            n = all_variants(ctx, rng, A, entries, mask, sign, roots=False)
+            n += plateaus(ctx, rng, A, entries, mask, nfit=1, navg=1)
+        finally:
+            ONE_BY_ONE[0] = False
     elif kind.startswith('roots'):
         idx = 2 * idx + int(kind[-1])
         T = int(rng.integers(4, 25))
@@ -427,12 +558,15 @@ def run_case(ctx, kind, idx, rng):
         mask = [True] * T
         if idx % 3 == 0:
             mask[int(rng.integers(0, T))] = False
-        A, entries, dk = build(rng, T, mask, sign, kind='cosh' if sign == 'positive' else 'sinh', rel=0.004)
+        A, entries, dk = build(rng, T, mask, sign, kind='cosh' if sign == 'positive' else 'sinh', rel=0.004, ctx=ctx)
         c = list(entries)
         n = 0
+        # the guess is forwarded to the root finder: any guess in the basin of the solution gives the same masses
+        guess = None if idx % 4 < 2 else float(rng.choice([0.5, 0.8, 1.5]))
         for v in (['cosh', 'periodic'] if sign == 'positive' else ['sinh', 'cosh']):
             ctx.cell('m_eff.' + v, refc.pattern_class(mask), sign)
-            n += judge_roots(ctx, A, c, mask, v)
+            n += judge_roots(ctx, A, c, mask, v, guess=guess)
+        check_held(ctx)
     elif kind.startswith('plateau'):
         idx = 2 * idx + int(kind[-1])
         T = int(rng.integers(4, 25))
@@ -441,9 +575,13 @@ def run_case(ctx, kind, idx, rng):
         if not any(mask):
             mask[0] = True
         a = int(rng.integers(0, T))
-        b = int(rng.integers(a, T))
+        b = int(rng.integers(a, T)) if rng.random() > 0.2 else a      # first == last: a single timeslice
+        if rng.random() < 0.1:
+            a, b = 0, T - 1
         how = ['range', 'prange', 'kw'][idx % 3]
-        A, entries, dk = build(rng, T, mask, sign, prange=[a, b] if (how == 'prange' and idx % 2) else None)
+        A, entries, dk = build(rng, T, mask, sign, prange=[a, b] if (how == 'prange' and idx % 2) else None, ctx=ctx)
+        if A.prange is not None and not (how == 'prange' and idx % 2):
+            A.prange = None
         if how == 'prange' and not idx % 2:
             A.set_prange([a, b])
         elif how != 'prange' and rng.random() < 0.5 and T >= 3:
@@ -456,13 +594,25 @@ def run_case(ctx, kind, idx, rng):
                 ctx.count('plateau_explicit_range_with_other_stored_prange')
         c = list(entries)
         auto = bool((idx // 3) % 2)
+        # stored analysis state: with auto_gamma off it defines the weights; with auto_gamma on the call must replace it
+        # by the default analysis (a stale S = 0 analysis gives visibly different errors)
         if not auto:
-            A.gamma_method()
+            A.gamma_method(S=float(rng.choice([2.0, 2.0, 0.0, 4.0])))
+        elif rng.random() < 0.6:
+            A.gamma_method(S=0.0)
+            ctx.count('plateau_auto_gamma_with_other_stored_analysis')
+        npr = how != 'prange' and rng.random() < 0.25
         ctx.cell('plateau.fit', how, 'auto_gamma' if auto else 'analysed', sign)
-        n = judge_plateau(ctx, A, c, mask, a, b, 'fit', how, auto)
+        n = judge_plateau(ctx, A, c, mask, a, b, 'fit', how, auto, np_range=npr)
         meth = str(rng.choice(['avg', 'average', 'mean']))
         ctx.cell('plateau.avg', how, sign)
-        n += judge_plateau(ctx, A, c, mask, a, b, meth, how, auto)
+        n += judge_plateau(ctx, A, c, mask, a, b, meth, how, auto, np_range=npr)
+        if how != 'prange':
+            # Corr.fit with a constant, called directly: the explicit range decides, not a stored prange
+            ctx.cell('fit.const', how, sign)
+            if auto:
+                A.gamma_method()
+            n += judge_plateau(ctx, A, c, mask, a, b, 'fit', how, False, np_range=npr, direct_fit=True)
         dk = 'plateau'
     else:
         raise ValueError(kind)
